@@ -8,6 +8,8 @@ LoopSpec is the contract of one loop: which locals it modifies (they are havocke
 proves the invariant on entry, assumes it at an arbitrary iteration, executes the body once, proves it again (inductive step)
 and ends that path; the exit path continues after the loop from the invariant and the negated loop condition.
 """
+import os
+import sys
 import z3
 
 from . import sym
@@ -269,6 +271,12 @@ class Rope(SymList):
         out = []
         for a, f, c in segs:
             c = z3.simplify(c)
+            if z3.is_app_of(c, z3.Z3_OP_ITE):
+                # a count that depends on a condition the path has already decided
+                if p.entails_quick(c.arg(0)):
+                    c = z3.simplify(c.arg(1))
+                elif p.entails_quick(z3.Not(c.arg(0))):
+                    c = z3.simplify(c.arg(2))
             if p.entails_ground(c == 0):
                 continue
             if out and out[-1][0].eq(a) and p.entails_ground(out[-1][1] + out[-1][2] == f):
@@ -284,6 +292,9 @@ class Rope(SymList):
         if len(mine) == len(theirs) and all(x[0].eq(y[0]) for x, y in zip(mine, theirs)):
             return z3.And(*([z3.BoolVal(True)] + [z3.Or(z3.And(x[2] == 0, y[2] == 0), z3.And(x[1] == y[1], x[2] == y[2]))
                                                    for x, y in zip(mine, theirs)]))
+        if os.environ.get('ROPE_DEBUG'):
+            sys.stderr.write("ROPE misaligned:\n  mine   %s\n  theirs %s\n" % ([(str(a)[:40], str(f), str(c)) for a, f, c in mine],
+                                                                            [(str(a)[:40], str(f), str(c)) for a, f, c in theirs]))
         # segment structures differ: extensional statement (the solver may or may not decide it)
         other = Rope(self.codec, segs, 'exp')
         return SymList.same_as(self, other)
